@@ -25,6 +25,177 @@ def gate_params(name):
     return 1 if name in ONE_PARAM else MULTI_PARAM.get(name, 0)
 
 
+class _GenOp(qp.operation.Operation):
+    """A user-defined operation whose frequencies can only come from its generator: exp(-i t H) for commuting single-wire terms."""
+    num_params = 1
+    grad_method = "A"
+
+    def __init__(self, t, wires, terms=None, id=None):
+        self._terms = terms
+        super().__init__(t, wires=wires, id=id)
+        self.hyperparameters["terms"] = terms
+
+    def generator(self):
+        return qp.sum(*[qp.s_prod(c, getattr(qp, p)(self.wires[i])) for (c, p, i) in self.hyperparameters["terms"]])
+
+    def decomposition(self):
+        t = self.data[0]
+        return [getattr(qp, "R" + p)(2 * c * t, wires=self.wires[i]) for (c, p, i) in self.hyperparameters["terms"]]
+
+    @property
+    def has_decomposition(self):
+        return True
+
+
+# generators c0*P0(w0) + c1*P1(w1) with 2*c integer and a spectrum that is NOT equally spaced ({-2,-1,1,2}: differences 1,2,3,4)
+EVOLVE_TERMS = [[(0.5, "Z", 0), (1.5, "Z", 1)], [(0.5, "X", 0), (1.5, "Z", 1)], [(1.5, "Y", 0), (0.5, "X", 1)]]
+
+
+def wrapper_jobs(rng, ctx_per):
+    """Adjoint / Controlled wrappers of the one-parameter table gates: their frequencies are derived (generator of the base plus
+    the control projector), not declared.  Sorted so that a poorer spectrum (controlled PhaseShift) is queried before a richer one
+    of the same size (controlled RZ)."""
+    jobs = []
+    for name in sorted(ONE_PARAM):
+        if name in ("GlobalPhase",) or ARITY.get(name, 9) > 2:
+            continue
+        ar = ARITY[name]
+        variants = [[{"t": "ctrl", "cv": [1]}], [{"t": "ctrl", "cv": [0]}], [{"t": "adj"}], [{"t": "adj"}, {"t": "ctrl", "cv": [1]}]]
+        if ar == 1:
+            variants.append([{"t": "ctrl", "cv": [1, 1]}])
+        for mods in variants:
+            nctrl = sum(len(md.get("cv", [])) for md in mods)
+            n = max(2, ar + nctrl)
+            for _ in range(max(1, ctx_per // 2)):
+                wires = rng.sample(range(1, n + 1), ar + nctrl)
+                g = rec(name, wires, [0], mods=mods)
+                jobs.append(_ctx(rng, n, wires, {"name": name + "".join("^" + md["t"] + ("".join(map(str, md.get("cv", [])))) for md in mods), "pi": 0, "n": n, "g": g}))
+    return jobs
+
+
+def _ctx(rng, n, wires, job, M_=M):
+    job["pre"] = devsim.random_circuit(rng, n, M_, rng.randint(1, 3), ["g1", "g2", "r1"])
+    job["post"] = devsim.random_circuit(rng, n, M_, rng.randint(0, 2), ["g1", "g2", "r1"])
+    pws = []
+    while len(pws) < NOBS:
+        pw = [rng.randint(0, 3) if (w + 1 in wires or rng.random() < 0.4) else 0 for w in range(n)]
+        if any(pw[w - 1] for w in wires) and pw not in pws:
+            pws.append(pw)
+    job["pws"] = pws
+    return job
+
+
+def evolve_jobs(rng, ctx_per):
+    """qp.evolve(H, t) and a user-defined operation with the same generator (M=5: frequencies up to 4)."""
+    jobs = []
+    for ti, terms in enumerate(EVOLVE_TERMS):
+        for kind in ("evolve", "custom"):
+            for _ in range(max(1, ctx_per // 2)):
+                n = 2
+                wires = rng.sample([1, 2], 2)
+                jobs.append(_ctx(rng, n, wires, {"name": f"{kind}[{'+'.join(f'{c}{p}' for c, p, _ in terms)}]", "pi": 0, "n": n, "terms": terms, "kind": kind,
+                                                "wires": wires}, M_=5))
+    return jobs
+
+
+def job_ops(job, a, Mj):
+    """gate records of the parametrised operation at lattice point a"""
+    if "g" in job:
+        p = list(job["g"]["p"]); p[job["pi"]] = a
+        return [dict(job["g"], p=p)]
+    Nj = 1 << Mj
+    return [rec("R" + p, [job["wires"][i]], [int(round(2 * c)) * a % Nj]) for (c, p, i) in job["terms"]]
+
+
+def job_plop(job, a, Mj):
+    if "g" in job:
+        return decode_gate(job_ops(job, a, Mj)[0], Mj)
+    t = lib.angle_of(a, Mj)
+    ws = [w - 1 for w in job["wires"]]
+    if job["kind"] == "custom":
+        return _GenOp(t, wires=ws, terms=job["terms"])
+    return qp.evolve(qp.sum(*[qp.s_prod(c, getattr(qp, p)(ws[i])) for (c, p, i) in job["terms"]]), t)
+
+
+def run_family(pid_tag, jobs, Mj, viol, undefined):
+    """exact lattice samples (TapeEval) + declared frequencies from the live operator (queried in job order and again in reverse
+    order) -> FreqSupport verdicts.  Returns (stats, tlc result, n traces, nontrivial set, samples, n device comparisons, negs)."""
+    Nj = 1 << Mj
+    cases = []
+    for job in jobs:
+        for a in range(Nj):
+            cases.append({"n": job["n"], "ops": job["pre"] + job_ops(job, a, Mj) + job["post"], "meas": [{"t": "expval", "pw": w_} for w_ in job["pws"]]})
+    res, stats = tapeeval.evaluate("C09", cases, Mj, raw=True, name="eval_" + pid_tag)
+    decls = []
+    for order in (range(len(jobs)), reversed(range(len(jobs)))):
+        d = {}
+        for ji in order:
+            job = jobs[ji]
+            try:
+                fr = qp.gradients.parameter_frequencies(job_plop(job, 1, Mj))[job["pi"]]
+            except Exception as e:
+                undefined[job["name"]] = type(e).__name__
+                fr = None
+            d[ji] = None if fr is None else tuple(float(w) for w in fr)
+        decls.append(d)
+    traces, n_dev = [], 0
+    for ji, job in enumerate(jobs):
+        if decls[0][ji] is None or decls[1][ji] is None:
+            continue
+        if decls[0][ji] != decls[1][ji]:
+            viol.append(Violation(key=f"{job['name']}[0]:declared-frequencies-depend-on-query-history",
+                                  detail=f"{job['name']}: {decls[0][ji]} when queried in order, {decls[1][ji]} when queried in reverse order", replay={"job": job["name"]}))
+        for fr in {decls[0][ji], decls[1][ji]}:
+            decl, ok = [], True
+            for w in fr:
+                k2 = 2 * w
+                ok = ok and abs(k2 - round(k2)) < 1e-9
+                decl.append(int(round(k2)))
+            if not ok:
+                viol.append(Violation(key=f"{job['name']}[{job['pi']}]:declared-frequency-not-half-integer", detail=f"{fr}", replay={"job": job["name"]}))
+                continue
+            for oi in range(NOBS):
+                traces.append({"f": [res[ji * Nj + a]["meas"][oi][0] for a in range(Nj)], "decl": decl, "job": ji, "obs": oi})
+        f = [res[ji * Nj + a]["meas"][0][0] for a in range(Nj)]
+        dev = qp.device("default.qubit", wires=job["n"])
+        for a in (1, 6, 11):
+            tape = qp.tape.QuantumScript([decode_gate(x, Mj) for x in job["pre"]] + [job_plop(job, a, Mj)] + [decode_gate(x, Mj) for x in job["post"]],
+                                         [qp.expval(devsim.word_op(job["pws"][0], list(range(job["n"]))))])
+            val = float(qp.execute([tape], dev)[0])
+            exp = lib.ring_to_complex(f[a]["c"], f[a]["k"], Mj).real
+            n_dev += 1
+            if abs(val - exp) > 1e-8:
+                viol.append(Violation(key=f"{job['name']}[{job['pi']}]:lattice-sample-differs", detail=f"default.qubit {val} vs exact {exp} at a={a} for {job['name']}", replay={"job": job["name"]}))
+    base = len(traces)
+    neg = []
+    for k in range(0, base, max(1, base // 8)):
+        if traces[k]["decl"]:
+            neg.append(len(traces))
+            traces.append({"f": traces[k]["f"], "decl": [], "job": -1, "obs": 0})
+    wd = lib.workdir("C09", "freq_" + pid_tag)
+    (wd / "traces.json").write_text(json.dumps([{"f": t["f"], "decl": t["decl"]} for t in traces]))
+    r = lib.run_tlc("FreqSupport", lib.cfg(constants={"M": Mj, "NTRACES": len(traces)}), wd, env={"TRACE_FILE": str(wd / "traces.json")})
+    lib.require_ok(r, "FreqSupport")
+    verd = {t[1] - 1: (t[2], t[3]) for t in r.tuples if t[0] == "V"}
+    if len(verd) != len(traces):
+        raise lib.MachineryError("verdicts not total")
+    nneg = sum(1 for i in neg if verd[i][0] != "ok")
+    if not neg or nneg == 0:
+        raise lib.MachineryError(f"negative controls ({pid_tag}): no trace with an empty declaration was rejected")
+    nontriv, samples = set(), []
+    for i, t in enumerate(traces[:base]):
+        job = jobs[t["job"]]
+        v, nz = verd[i]
+        if v != "ok":
+            viol.append(Violation(key=f"{job['name']}[{job['pi']}]:{v}", detail=f"{v}: declared 2*omega={t['decl']} for {job['name']} in context pre={job['pre']} post={job['post']} obs={job['pws'][t['obs']]}",
+                                  replay={"job": job["name"], "pre": job["pre"], "post": job["post"], "obs": job["pws"][t["obs"]]}))
+        elif nz > 0:
+            nontriv.add((job["name"], t["job"], t["obs"]))
+            if len(samples) < 2:
+                samples.append({"operation": job["name"], "declared_2omega": t["decl"], "nonzero_frequencies_found": nz})
+    return stats, r, base, nontriv, samples, n_dev, nneg
+
+
 def run(tier, seed):
     rng = random.Random(900 + seed)
     names = [g for g in sorted(set(ONE_PARAM) | set(MULTI_PARAM)) if g not in ("GlobalPhase", "U1")] + ["U1"]
@@ -125,10 +296,22 @@ def run(tier, seed):
             nontriv.add((name, pi, t["job"], t["obs"]))
             if len(samples) < 3:
                 samples.append({"gate": g, "param": pi, "declared_2omega": t["decl"], "nonzero_frequencies_found": nz, "observable": pw})
+    fam = {}
+    for tag, fj, Mj in (("wrap", wrapper_jobs(rng, ctx_per), M), ("evolve", evolve_jobs(rng, ctx_per), 5)):
+        st2, r2, base2, nt2, smp2, nd2, nneg2 = run_family(tag, fj, Mj, viol, undefined)
+        fam[tag] = {"jobs": len(fj), "traces": base2, "nontrivial": len(nt2), "negative_controls_rejected": nneg2, "samples": smp2,
+                    "states": st2["distinct"] + r2.distinct, "device_samples": nd2, "ring_level": Mj}
+        stats = {"distinct": stats["distinct"] + st2["distinct"] + r2.distinct, "generated": stats["generated"] + st2["generated"] + r2.generated}
+        base += base2
+        n_dev += nd2
+        nontriv |= {("fam:" + tag,) + x for x in nt2}
+        nneg_strict += nneg2
+        if not nt2:
+            raise lib.MachineryError(f"vacuity: no non-trivial spectrum in family {tag}")
     cov = {"states": stats["distinct"] + r.distinct, "transitions": stats["generated"] + r.generated, "traces_validated_against_impl": base,
            "evaluations": len(cases), "distinct_nontrivial": len(nontriv),
-           "rule": "every parametrised table gate x parameter x random Clifford+T context and Pauli observable; non-trivial = (gate, parameter, "
-                   "context) whose exact spectrum has a non-zero frequency", "samples": samples, "default_qubit_samples_checked": n_dev,
+           "rule": "every parametrised table gate x parameter, Adjoint / Controlled wrappers of the one-parameter gates (derived frequencies, queried in two orders), qp.evolve and a user-defined operation with a non-equally-spaced generator spectrum, each x random Clifford+T context and Pauli observable; non-trivial = (gate, parameter, "
+                   "context) whose exact spectrum has a non-zero frequency", "samples": samples, "default_qubit_samples_checked": n_dev, "derived_frequency_families": fam,
            "negative_controls_rejected": nneg_strict, "frequencies_undefined_for": undefined, "lattice_points": N, "resolves_2omega_up_to": N // 2 - 1}
     return CheckResult(coverage=cov, violations=viol, assumptions=[
         "frequencies resolved up to 3.5 before aliasing at M=4 (every declared frequency in the tree is <= 2)",
